@@ -95,6 +95,24 @@ def gen_undetermined(r):
     return dom, attrs, sizes, rows, out, N
 
 
+def gen_flat(r):
+    """measurements no reweighting can fit better or worse: every public record has the same value on the measured attribute (or only
+    the total is measured), so the objective is constant in the weights and its gradient is a constant vector of round-off size"""
+    n = r.choice([3, 6, 10])
+    k = r.choice([2, 3])
+    attrs = r.sample(['a', 'b', 'c', 'd'], 2)
+    dom = [[attrs[0], n], [attrs[1], k]]
+    sizes = dict(map(tuple, dom))
+    rows = [[i, 0] for i in range(n)]
+    N = r.choice([50, 7540, 100000])
+    if r.random() < 0.6:
+        y = np.array([float(N)] + [float(r.choice([0, 50, 3]))] * (k - 1))
+        meas = [(np.eye(k), y, r.choice([0.1, 1.0]), (attrs[1],))]
+    else:
+        meas = [(np.ones((1, n)), np.array([float(N)]), r.choice([0.1, 1.0]), (attrs[0],))]
+    return dom, attrs, sizes, rows, meas, N
+
+
 def gen_conflict(r):
     """precise one-way answers against very noisy two-way answers that contradict them (all mass on one value of the first attribute):
     the noise weighting decides which of the two the estimator should believe"""
@@ -126,7 +144,10 @@ def run(res, drv, tier, seed):
         conflict = ci % 6 == 5
         wide = ci % 6 == 1
         undet = ci % 12 == 3
-        dom, attrs, sizes, rows, meas, N = gen_conflict(r) if conflict else (gen_wide(r) if wide else (gen_undetermined(r) if undet else gen(r)))
+        flat = ci % 12 == 9 or ci % 12 == 4
+        dom, attrs, sizes, rows, meas, N = gen_conflict(r) if conflict else (gen_wide(r) if wide else (gen_undetermined(r) if undet else (gen_flat(r) if flat else gen(r))))
+        if flat:
+            res.count('directed: objective constant in the weights (flat)')
         if wide:
             res.count('directed: measured projection with more than 256 cells, good public proxy')
         if undet:
@@ -143,7 +164,7 @@ def run(res, drv, tier, seed):
         df = df.astype(dtype)
         res.count('public records stored as ' + dtype)
         pub = Dataset(df.copy(), d)
-        total = None if undet else r.choice([None, float(N), 17.5])
+        total = None if undet else (float(N) if flat else r.choice([None, float(N), 17.5]))
         canon = {'dom': dom, 'rows': rows, 'total': total, 'metric': metric, 'dtype': dtype, 'meas': [{'Q': Q.tolist(), 'y': y.tolist(), 'noise': s, 'proj': list(p)} for Q, y, s, p in meas]}
         res.case(canon, len(meas) >= 2 or len(set(map(tuple, rows))) < len(rows), sample={'dom': dom, 'records': len(rows), 'projections': [list(m[3]) for m in meas], 'total': total} if ci < 3 else None)
         res.count('total given' if total is not None else 'total estimated')
